@@ -178,9 +178,9 @@ Proof.
   pose proof (parse_expr_ok inlen NT eofchk f prec (c_p s) b Hi Hb Hf) as H.
   destruct (parse_expr f prec (c_p s)) as [n p'|t c p'|m|]; cbn [ppost] in H; try contradiction.
   - destruct H as (A & B & C). cbn [cpost]. unfold cinv. cbn [c_p c_scans set_p]. auto.
-  - destruct H as (A & B & C). subst t.
-    pose proof (twf_pos _ _ (pinv_err_tok _ _ _ _ A)) as Hpos.
-    destruct (N.leb_spec (t_pos (err_tok p')) inlen); [|lia]. cbn [cpost]. unfold cinv. cbn [c_p c_scans set_p]. auto.
+  - destruct H as (A & B & C).
+    pose proof (twf_pos _ _ C) as Hpos.
+    destruct (N.leb_spec (t_pos t) inlen); [|lia]. cbn [cpost]. unfold cinv. cbn [c_p c_scans set_p]. auto.
 Qed.
 
 (* ---------- parseQuotedExpr: its own scanner, always drained ---------- *)
@@ -222,10 +222,10 @@ Proof.
   - destruct HP as (A & B & C). pose proof (pi_peek _ _ _ _ A).
     assert (Hrk : (p_recv p' <= length ts + 4)%nat) by (unfold kap, lpz in *; cbn [pst_init p_recv p_peek] in *; lia).
     cbn [cpost]. unfold cinv. cbn [c_p c_scans add_scan]. split; [split; [auto|constructor; [split; cbn; auto|auto]]|auto].
-  - destruct HP as (A & B & C). subst t. pose proof (pi_peek _ _ _ _ A).
+  - destruct HP as (A & B & C). pose proof (pi_peek _ _ _ _ A).
     assert (Hrk : (p_recv p' <= length ts + 4)%nat) by (unfold kap, lpz in *; cbn [pst_init p_recv p_peek] in *; lia).
-    pose proof (twf_pos _ _ (pinv_err_tok _ _ _ _ A)) as Hpos.
-    destruct (N.leb_spec (t_pos (err_tok p')) il); [|lia].
+    pose proof (twf_pos _ _ C) as Hpos.
+    destruct (N.leb_spec (t_pos t) il); [|lia].
     cbn [cpost]. unfold cinv. cbn [c_p c_scans add_scan]. split; [split; [auto|constructor; [split; cbn; auto|auto]]|]. unfold kap in Hb. lia.
 Qed.
 End Quoted.
